@@ -25,6 +25,9 @@ class ExprMixin:
             return GlobalRef("builtins." + name)
         if name in R.SPEC:
             return R.SPEC[name]
+        if st.spec_mode and name.startswith("L_"):
+            # a local that is not bound on this path: unconstrained (clauses guard its use by the path's own condition)
+            return ZV(L.fresh("unbound_" + name), None)
         raise Unsupported("unbound name %s (line %s)" % (name, getattr(node, "lineno", "?")))
 
     def global_value(self, path):
@@ -139,6 +142,8 @@ class ExprMixin:
                 x = self.eval(v.value)
                 if is_prim_str(x) and not v.format_spec and v.conversion == -1:
                     parts.append(as_str(x))
+                elif is_prim_int(x) and not isinstance(x, ZV) and not v.format_spec and v.conversion == -1:
+                    parts.append(z3.IntToStr(as_int(x)))
                 else:
                     parts.append(L.fresh("fmt", L.S))
         if not parts:
@@ -443,7 +448,12 @@ class ExprMixin:
                 c = z3.simplify(self.py_eq(k, idx))
                 if z3.is_true(c):
                     return v
-            raise Unsupported("symbolic key into dict display")
+            # symbolic key into a dict display: first matching key (KeyError if none)
+            self.partial(z3.Or(*[self.py_eq(k, idx) for k, _ in base.items]), "KeyError", node, "display-key")
+            res = base.items[-1][1]
+            for k, v in reversed(base.items[:-1]):
+                res = self.ite(self.py_eq(k, idx), v, res)
+            return res
         if is_prim_str(base) and not isinstance(base, ZV):
             s = as_str(base)
             i = as_int(idx)
@@ -706,6 +716,8 @@ class ExprMixin:
         guard = z3.And(0 <= j, j < n)
         saved = dict(st.env)
         st.qctx.append(((j,), guard))
+        outer_defer = getattr(self, "_defer", None)
+        self._defer = []
         try:
             self.bind_target(g.target, self.retag(L.nth(sv.term, j), self.elem_tag(sv)))
             conds = [as_bool(self.eval(c)) for c in g.ifs]
@@ -719,8 +731,12 @@ class ExprMixin:
                 if conds:
                     st.qctx.pop()
         finally:
+            deferred = [(z3.ForAll([j], z3.Implies(guard, dc)), exc) for dc, exc in self._defer]
+            self._defer = outer_defer
             st.qctx.pop()
             st.env = saved
+        for dcond, exc in deferred:
+            self.partial(dcond, exc, node, "comprehension-element")
         out = L.fresh("dcomp")
         st.assume(out != L.NONE)
         P = z3.And(*conds) if conds else z3.BoolVal(True)
